@@ -40,7 +40,12 @@ def mk_engine(n, kind="mamdani"):
         lo, hi = ranges[i]
         e.input_variables.append(fl.InputVariable(name=f"in{i}", minimum=lo, maximum=hi, lock_range=False, terms=[
             fl.Triangle("low", lo, lo, hi), fl.Triangle("high", lo, hi, hi)]))
-    if kind == "mamdani":
+    if kind == "locked":
+        # rules fire on the lower 30 % of every input range only; elsewhere the outputs hold their previous value
+        for iv in e.input_variables:
+            lo, hi = iv.minimum, iv.maximum
+            iv.terms = [fl.Triangle("low", lo, lo, lo + 0.3 * (hi - lo)), fl.Triangle("high", lo, lo + 0.15 * (hi - lo), lo + 0.3 * (hi - lo))]
+    if kind in ("mamdani", "locked"):
         e.output_variables.append(fl.OutputVariable(name="out", minimum=0.0, maximum=1.0, aggregation=fl.Maximum(),
                                                     defuzzifier=fl.Centroid(50), lock_previous=False, terms=[
             fl.Triangle("a", 0.0, 0.25, 0.5), fl.Triangle("b", 0.5, 0.75, 1.0)]))
@@ -60,6 +65,9 @@ def mk_engine(n, kind="mamdani"):
                                       rules=[fl.Rule.create(r, e) for r in rules]))
     for t in e.output_variables[0].terms:
         t.update_reference(e)
+    if kind == "locked":
+        for ov in e.output_variables:
+            ov.lock_previous = True
     return e
 
 
@@ -126,10 +134,19 @@ def check_export(case, model_rows):
                     assert idx_.denominator == 1
                     grid[ri_, ci_] = iv.minimum + int(idx_) * (iv.drange / max(1.0, res))
         e2.restart()
-        for i, iv in enumerate(e2.input_variables):
-            iv.value = grid[:, i]
-        e2.process()
-        exp_out = np.atleast_2d(e2.output_values)
+        if case["kind"] == "locked":
+            # the engine itself, restarted once and fed the grid points one at a time (the previous value carries over)
+            exp_out = np.zeros((len(model_rows), len(e2.output_variables)))
+            for ri_ in range(len(model_rows)):
+                for i, iv in enumerate(e2.input_variables):
+                    iv.value = float(grid[ri_, i])
+                e2.process()
+                exp_out[ri_, :] = [float(np.take(ov.value, -1)) for ov in e2.output_variables]
+        else:
+            for i, iv in enumerate(e2.input_variables):
+                iv.value = grid[:, i]
+            e2.process()
+            exp_out = np.atleast_2d(e2.output_values)
     for ri, (r, m) in enumerate(zip(rows, model_rows)):
         if len(r) != ncols:
             return f"row {ri} has {len(r)} columns, expected {ncols}"
@@ -146,7 +163,7 @@ def check_export(case, model_rows):
                 if want != want:
                     if got.lower() != "nan":
                         return f"row {ri} output {oi}: printed {got}, engine gives nan"
-                elif abs(float(got) - want) > 0.5 * 10 ** (-d) + 1e-7:
+                elif not (abs(float(got) - want) <= 0.5 * 10 ** (-d) + 1e-7):       # also when a number became nan
                     return f"row {ri} output {oi}: printed {got}, engine gives {want!r}"
     return None
 
@@ -181,24 +198,33 @@ def oracle(case):
             return False, f"header {header}, expected the selected variable names {want_h}"
     if len(rows) != total:
         return False, f"{len(rows)} rows, expected {total} (k={k} per active input, {n} inputs, v={v}, scope={case['scope']})"
-    if case["inputs"]:
-        half = Fr(1, 2 * 10 ** d) + Fr(1, 10 ** 9)
-        idx = [0] * n
-        for ri, r in enumerate(rows):
-            for ci, iv in enumerate(e.input_variables):
-                if case["active"][ci]:
-                    lo, hi = Fr(iv.minimum), Fr(iv.maximum)
-                    want = lo + idx[ci] * ((hi - lo) / max(1, k - 1))
-                else:
-                    want = Fr(0.123)
-                if abs(Fr(r[ci]) - want) > half:
-                    return False, f"row {ri}: input {ci} printed {r[ci]}, lexicographic grid point has {float(want)}"
-            # lexicographic successor, last input fastest
-            for ci in reversed(range(n)):
-                if idx[ci] + 1 < per[ci]:
-                    idx[ci] += 1
-                    break
-                idx[ci] = 0
+    half = Fr(1, 2 * 10 ** d) + Fr(1, 10 ** 9)
+    idx = [0] * n
+    grid_rows = []
+    for ri, r in enumerate(rows):
+        grow = []
+        for ci, iv in enumerate(e.input_variables):
+            if case["active"][ci]:
+                lo, hi = Fr(iv.minimum), Fr(iv.maximum)
+                want = lo + idx[ci] * ((hi - lo) / max(1, k - 1))
+                grow.append(str(want))
+            else:
+                want = Fr(0.123)
+                grow.append("nan")
+            if case["inputs"] and abs(Fr(r[ci]) - want) > half:
+                return False, f"row {ri}: input {ci} printed {r[ci]}, lexicographic grid point has {float(want)}"
+        grid_rows.append(grow)
+        # lexicographic successor, last input fastest
+        for ci in reversed(range(n)):
+            if idx[ci] + 1 < per[ci]:
+                idx[ci] += 1
+                break
+            idx[ci] = 0
+    if case["outputs"]:
+        # every row holds the outputs the engine produces for the row's inputs (the engine itself is the reference)
+        bad = check_export(case, grid_rows)
+        if bad:
+            return False, bad
     return True, "ok"
 
 
@@ -245,6 +271,12 @@ def gen_cases(ctx):
         for v in vs:
             yield {"n": n, "kind": "mamdani", "scope": "all", "v": v, "active": [True] * n, "sep": " ", "headers": True,
                    "inputs": True, "outputs": False, "decimals": 3}
+    # outputs that lock their previous value, on grids small and large (more than 1024 rows: any internal batching of the
+    # export must not lose the value carried from one row to the next)
+    for n, scope, v in [(1, "each", 7), (1, "each", 40), (2, "each", 6), (2, "all", 50), (1, "each", 1100), (2, "all", 1160),
+                        (1, "all", 1537)] + ([(2, "each", 40), (3, "all", 1400)] if ctx.thorough else []):
+        yield {"n": n, "kind": "locked", "scope": scope, "v": v, "active": [True] * n, "sep": " ", "headers": False,
+               "inputs": True, "outputs": True, "decimals": 4}
     for _ in range(ctx.scale(60, 600)):
         n = rng.randint(1, 4)
         scope = rng.choice(["all", "each"])
